@@ -403,6 +403,106 @@ func (e *Engine) frameCheck() *FuncResult {
 			add("no-concurrency-primitives/"+name, okConc, pos, "no goroutine, channel operation or select")
 		}
 	}
+	// no reference to package-level data is stored into a data structure: the ownership argument
+	// above ("everything reachable from a fresh object is fresh") needs it - a tree that contains a
+	// shared node would be written (or raced on) through a fresh parent
+	{
+		retGlobal := map[*ssa.Function]bool{}
+		var globalDerived func(v ssa.Value) (bool, string)
+		globalDerived = func(v ssa.Value) (bool, string) {
+			for _, r := range frameRoots(v) {
+				switch x := r.(type) {
+				case *ssa.Global:
+					return true, "package-level variable " + x.Name()
+				case *ssa.Call:
+					var targets []*ssa.Function
+					if c := x.Call.StaticCallee(); c != nil {
+						targets = []*ssa.Function{c}
+					} else if !x.Call.IsInvoke() {
+						targets = e.candidates(x.Call.Value.Type())
+					}
+					for _, t := range targets {
+						if retGlobal[t] {
+							return true, "the result of " + t.Name() + " (which may return package-level data)"
+						}
+					}
+				}
+			}
+			return false, ""
+		}
+		isRefVal := func(v ssa.Value) bool {
+			t := v.Type()
+			if refType(t) {
+				return true
+			}
+			if _, isIface := t.Underlying().(*types.Interface); isIface {
+				if mi, ok := v.(*ssa.MakeInterface); ok {
+					return refType(mi.X.Type())
+				}
+				return true
+			}
+			return false
+		}
+		for changed := true; changed; {
+			changed = false
+			for _, f := range reach {
+				if retGlobal[f] {
+					continue
+				}
+				for _, b := range f.Blocks {
+					for _, in := range b.Instrs {
+						ret, ok := in.(*ssa.Return)
+						if !ok {
+							continue
+						}
+						for _, r := range ret.Results {
+							if !isRefVal(r) {
+								continue
+							}
+							if g, _ := globalDerived(r); g {
+								retGlobal[f] = true
+								changed = true
+							}
+						}
+					}
+				}
+			}
+		}
+		for _, f := range reach {
+			why, pos := "", token.NoPos
+			for _, b := range f.Blocks {
+				for _, in := range b.Instrs {
+					var val ssa.Value
+					var addr ssa.Value
+					switch i := in.(type) {
+					case *ssa.Store:
+						val, addr = i.Val, i.Addr
+					case *ssa.MapUpdate:
+						val, addr = i.Value, i.Map
+					default:
+						continue
+					}
+					if !isRefVal(val) {
+						continue
+					}
+					if a := allocBase(addr); a != nil && !a.Heap {
+						continue // a local variable, not a data structure
+					}
+					if g, what := globalDerived(val); g && why == "" {
+						why, pos = "stores a reference to "+what+" into a data structure", in.Pos()
+					}
+				}
+			}
+			if why != "" || retGlobal[f] {
+				info := "no reference to package-level data is stored into a data structure"
+				if why != "" {
+					info = why
+				}
+				add("no-shared-references/"+shortFuncName(f), why == "", pos, info)
+			}
+		}
+		add("no-shared-references/all-reachable", true, token.NoPos, fmt.Sprintf("%d reachable functions scanned for references to package-level data stored into data structures", len(reach)))
+	}
 	add("deterministic/all-reachable", true, token.NoPos, fmt.Sprintf("%d reachable functions scanned for map iteration, clocks, randomness, environment access, pointer-to-integer conversions", len(reach)))
 	// package-level variables are written only during initialisation
 	writers := map[*ssa.Global][]string{}
